@@ -119,15 +119,29 @@ def options_vs_coords(rng):
     from common import run_main
     rot = [rng.choice([0, 30, 90, rng.uniform(-180, 180)]) for _ in range(3)]
     tr = [rng.uniform(-5, 5) for _ in range(3)]
-    sc = rng.choice([1.0, 2.0, 0.5])
+    # the scale factor given at once, as several --geo-scale options (they multiply), or per object and then for everything
+    how = rng.choice(['one', 'one', 'two', 'three', 'per-tag+whole'])
+    if how == 'one':
+        facs = [(rng.choice([1.0, 2.0, 0.5]), None)]
+    elif how == 'two':
+        facs = [(rng.choice([2.0, 0.5, 4.0]), None), (rng.choice([5.0, 0.25, 1.5]), None)]
+    elif how == 'three':
+        facs = [(2.0, None), (0.5, None), (rng.choice([3.0, 0.125]), None)]
+    else:
+        a_ = rng.choice([4.0, 0.5])
+        facs = [(a_, 1), (a_, 2), (rng.choice([2.5, 0.5]), None)]
+    sc = 1.0
+    for fac_, tg_ in facs:
+        if tg_ in (None, 1):
+            sc *= fac_
     w = [[0, 0, 0, 0, 0, 5.0], [0, 0, 5.0, 3.0, 1.0, 5.0]]
     base = ['-f', '14', '--excitation-pulse=2']
     # sort keys as the user may write them: the order is numeric (5 before 10, -2 before -1, 9 before 10.5, 1e1 = 10)
     kr, kt = rng.choice([('1', '2'), ('2', '1'), ('5', '10'), ('10', '5'), ('9', '10.5'), ('20', '100'), ('100', '20'),
                          ('-2', '-1'), ('-1', '-2'), ('+3', '1e1'), ('1e1', '+3'), ('0.5', '0.25'), ('3', '3')])
-    a1 = base + ['-w', '4,%s,.01' % ','.join('%.17g' % x for x in w[0]), '-w', '3,%s,.01' % ','.join('%.17g' % x for x in w[1]),
-                 '--geo-rotate=%s,%.17g,%.17g,%.17g' % ((kr,) + tuple(rot)), '--geo-translate=%s,%.17g,%.17g,%.17g' % ((kt,) + tuple(tr)),
-                 '--geo-scale=%.17g' % sc]
+    a1 = base + ['-w', '1,4,%s,.01' % ','.join('%.17g' % x for x in w[0]), '-w', '2,3,%s,.01' % ','.join('%.17g' % x for x in w[1]),
+                 '--geo-rotate=%s,%.17g,%.17g,%.17g' % ((kr,) + tuple(rot)), '--geo-translate=%s,%.17g,%.17g,%.17g' % ((kt,) + tuple(tr))] + \
+        ['--geo-scale=%.17g%s' % (fac_, '' if tg_ is None else ',%d' % tg_) for fac_, tg_ in facs]
     R = rotmat(*rot)
     rot_first = float(kr) <= float(kt)          # equal keys: rotations are collected before translations
     w2 = []
